@@ -8,6 +8,7 @@ import (
 
 // SpecEnv resolves identifiers inside specification expressions.
 type SpecEnv struct {
+	heapOf func(global *Term) *Term // current heap array for a heap field (nil: the entry heap constants)
 	names map[string]*Val
 	st    *State // caller state for locals / ghost (may be nil)
 	ex    *Exec  // may be nil (spec function bodies, lemmas)
@@ -165,10 +166,14 @@ func (w *World) trSpec(e *SExpr, env *SpecEnv) *Val {
 			}
 		}
 		base := w.trSpec(e.Args[0], env)
-		return w.specField(base, e.Name, e)
+		return w.specField(base, e.Name, e, env)
 	case "index":
 		base := w.trSpec(e.Args[0], env)
 		idx := w.trSpec(e.Args[1], env)
+		if base.ArrField != nil {
+			arr := base.ArrField.Type().Underlying().(*types.Array)
+			return tv(elemRefTerm(base.T, base.ArrOwner, base.ArrField, idx.T), arr.Elem())
+		}
 		if base.T.S.IsSlice {
 			var et types.Type
 			if base.GoT != nil {
@@ -206,7 +211,7 @@ func (w *World) trSpec(e *SExpr, env *SpecEnv) *Val {
 	panic("spec: unsupported expression kind " + e.Kind)
 }
 
-func (w *World) specField(base *Val, name string, e *SExpr) *Val {
+func (w *World) specField(base *Val, name string, e *SExpr, env *SpecEnv) *Val {
 	if base.T.S.Kind == KDT {
 		if i, fs := base.T.S.field(name); i >= 0 {
 			_ = fs
@@ -224,29 +229,42 @@ func (w *World) specField(base *Val, name string, e *SExpr) *Val {
 		}
 	}
 	if base.GoT != nil {
+		var named *types.Named
+		var lookupT types.Type
 		if pt, ok := base.GoT.Underlying().(*types.Pointer); ok {
-			if named, ok := pt.Elem().(*types.Named); ok {
-				// search field including embedded
-				obj, path, _ := types.LookupFieldOrMethod(pt, true, named.Obj().Pkg(), name)
-				if fv, ok := obj.(*types.Var); ok && fv.IsField() {
-					cur := base.T
-					curNamed := named
-					for k, idx := range path {
-						stt := curNamed.Underlying().(*types.Struct)
-						f := stt.Field(idx)
+			named = namedOf(pt.Elem())
+			lookupT = pt
+		} else if w.isRefStruct(base.GoT) {
+			named = namedOf(base.GoT)
+			lookupT = types.NewPointer(base.GoT)
+		}
+		if named != nil {
+			obj, path, _ := types.LookupFieldOrMethod(lookupT, true, named.Obj().Pkg(), name)
+			if fv, ok := obj.(*types.Var); ok && fv.IsField() {
+				cur := base.T
+				curNamed := named
+				for k, idx := range path {
+					stt := curNamed.Underlying().(*types.Struct)
+					f := stt.Field(idx)
+					if w.isRefStruct(f.Type()) {
+						cur = subRefTerm(cur, curNamed, f)
+						curNamed = namedOf(f.Type())
 						if k == len(path)-1 {
-							if f.Embedded() && isStructNamed(f.Type()) {
-								return tv(embRefTerm(cur, curNamed, f), types.NewPointer(f.Type()))
-							}
-							return tv(tSelect(w.heapField(curNamed, f), cur), f.Type())
+							return tv(cur, f.Type())
 						}
-						if f.Embedded() && isStructNamed(f.Type()) {
-							cur = embRefTerm(cur, curNamed, f)
-							curNamed = f.Type().(*types.Named)
-							continue
-						}
-						panic("spec: unsupported field path " + e.String())
+						continue
 					}
+					if k == len(path)-1 {
+						if _, isArr := w.isArrayOfRefStruct(f.Type()); isArr {
+							return &Val{T: cur, GoT: f.Type(), ArrOwner: curNamed, ArrField: f, Mag: -1}
+						}
+						h := w.heapField(curNamed, f)
+						if env.heapOf != nil {
+							h = env.heapOf(h)
+						}
+						return tv(tSelect(h, cur), f.Type())
+					}
+					panic("spec: unsupported field path " + e.String())
 				}
 			}
 		}
@@ -415,6 +433,13 @@ func (w *World) trSpecCall(e *SExpr, env *SpecEnv) *Val {
 				panic(fmt.Sprintf("spec: argument %d of %s has sort %s, want %s (in %s)", i, name, ts[i].S, ps, e.String()))
 			}
 		}
+		for _, g := range w.specHeapParams(sf) {
+			if env.heapOf != nil {
+				ts = append(ts, env.heapOf(g))
+			} else {
+				ts = append(ts, g)
+			}
+		}
 		rs, gt := w.resolveSpecType(sf.Pkg, sf.Ret)
 		return tv(mk(specFuncSMTName(sf), rs, ts...), gt)
 	}
@@ -440,6 +465,40 @@ type SpecDef struct {
 	Deps   []string
 }
 
+var specHeapCache = map[*SpecFunc][]*Term{}
+var specHeapInProgress = map[*SpecFunc]bool{}
+
+// specHeapParams: the heap fields a spec function reads (transitively), as global constants in name order.
+func (w *World) specHeapParams(sf *SpecFunc) []*Term {
+	if hp, ok := specHeapCache[sf]; ok {
+		return hp
+	}
+	if specHeapInProgress[sf] || sf.Body == nil {
+		return nil
+	}
+	specHeapInProgress[sf] = true
+	defer delete(specHeapInProgress, sf)
+	seen := map[string]*Term{}
+	names := map[string]*Val{}
+	for _, p := range sf.Params {
+		s, gt := w.resolveSpecType(sf.Pkg, p.Type)
+		names[p.Name] = tv(cnst(p.Name+"$", s), gt)
+	}
+	saved := bvCounter
+	env := &SpecEnv{names: names, pkg: sf.Pkg, w: w, heapOf: func(g *Term) *Term {
+		seen[g.Op] = g
+		return cnst(g.Op+"$", g.S)
+	}}
+	w.trSpec(sf.Body, env)
+	bvCounter = saved
+	var hp []*Term
+	for _, k := range sortedKeys(seen) {
+		hp = append(hp, seen[k])
+	}
+	specHeapCache[sf] = hp
+	return hp
+}
+
 func (w *World) specDef(sf *SpecFunc) *SpecDef {
 	saved := bvCounter
 	bvCounter = 0
@@ -454,8 +513,12 @@ func (w *World) specDef(sf *SpecFunc) *SpecDef {
 		d.Params = append(d.Params, c)
 		names[p.Name] = tv(c, gt)
 	}
+	hp := w.specHeapParams(sf)
+	for _, g := range hp {
+		d.Params = append(d.Params, cnst(g.Op+"$", g.S))
+	}
 	if sf.Body != nil {
-		env := &SpecEnv{names: names, pkg: sf.Pkg, w: w}
+		env := &SpecEnv{names: names, pkg: sf.Pkg, w: w, heapOf: func(g *Term) *Term { return cnst(g.Op+"$", g.S) }}
 		b := w.trSpec(sf.Body, env)
 		d.Body = coerceTo(b, rs)
 		if !d.Body.S.Eq(rs) {
